@@ -28,6 +28,37 @@ func handle(f []string) string {
 		return "bad-op"
 	}
 	op, cname := f[0], f[1]
+	if op == "omar" {
+		// Options.Marshal on its own: nil buffer (sizing pass) and every buffer length 0..len
+		m, _, err := codecx.ParseMsg(f[2:])
+		if err != nil {
+			return "bad-op"
+		}
+		n0, e0 := m.Options.Marshal(nil)
+		h := lp.FnvInit
+		nsz, ncan := 0, 0
+		full := "-"
+		for capN := 0; capN <= n0; capN++ {
+			win, arr := codecx.Window(capN)
+			n, e := m.Options.Marshal(win)
+			k := codecx.ErrKind(e)
+			h = lp.Mix(lp.Mix(h, uint64(int64(n))), errCode(k))
+			for _, b := range win {
+				h = lp.Mix(h, uint64(b))
+			}
+			if codecx.CanaryOK(arr, capN) {
+				ncan++
+			}
+			if capN < n0 {
+				if n == n0 && k == "tooSmall" {
+					nsz++
+				}
+			} else {
+				full = fmt.Sprintf("%d %s %s", n, k, lp.Hex(win))
+			}
+		}
+		return fmt.Sprintf("omar %d %s %d %d %s %s", n0, codecx.ErrKind(e0), nsz, ncan, lp.Hex64(h), full)
+	}
 	c, ok := codecx.CoderOf(cname)
 	if !ok {
 		return "bad-op"
